@@ -413,12 +413,26 @@ func c14Start(name string) (opts []SysOpt, peers []*simPeer) {
 		a.Nodes = nil
 		opts = append(opts, starting(a, b))
 		peers = []*simPeer{a, b}
+	case "holder-imm", "holder-mut":
+		// a holds the value the get/put traversals look for and lists a silent and an answering node:
+		// a lookup that finds its value returns while other queries are still in flight
+		b.Silent = true
+		b.Nodes, cpeer.Nodes = nil, nil
+		a.Token = strp("tok:a")
+		if name == "holder-imm" {
+			a.Extra = sim.M{"v": "imm"}
+		} else {
+			pub := pubOf(bepKey1)
+			a.Extra = sim.M{"v": "held", "k": string(pub[:]), "seq": 3, "sig": string(refSign(bepKey1, []byte("s"), 3, sim.Enc("held")))}
+		}
+		opts = append(opts, starting(a, b))
+		peers = []*simPeer{a, b, cpeer}
 	}
 	opts = append(opts, func(c *dht.ServerConfig) { c.QueryResendDelay = func() time.Duration { return c14D } })
 	return
 }
 
-var c14Starts = []string{"none", "nilfunc", "resolver-error", "silent1", "answer1", "net3", "two-one-silent"}
+var c14Starts = []string{"none", "nilfunc", "resolver-error", "silent1", "answer1", "net3", "two-one-silent", "holder-imm", "holder-mut"}
 var c14Ops = []string{"bootstrap", "bootstrapctx", "announce", "announce-noport", "gp.get-mut", "gp.get-imm", "gp.put", "ping", "find_node", "get_peers", "get", "put"}
 var c14Stops = []string{"never", "0", "500ms", "2500ms"}
 
@@ -584,7 +598,7 @@ func init() { runners["C14"] = runC14 }
 func TestC14(t *testing.T) {
 	w := explore.NewWorker("C14")
 	defer w.Finish()
-	w.SetRule("fault/timing grid on the virtual clock (resend delay 1 s): one Query with NumTries 1..3 x reply instant x ctx-cancel instant x Close instant (each in {never, right after the first send, d/2, k*d -/+ 1 ns}) x scripted socket write error on send i x a socket write stuck for half an interval (with reply / cancel / Close inside that window) x rate-limit options with a full or an empty limiter; every API call (Ping, FindNode, GetPeers, Get, Put) and traversal (Bootstrap, BootstrapContext, AnnounceTraversal with and without announce and with Close / StopTraversing, getput.Get mutable/immutable, getput.Put) under 7 start conditions (no starting nodes, nil resolver, resolver error, one silent node, one answering node, 3-node network with a silent member, two nodes one silent) x stop instant (never, 0, 0.5 s, 2.5 s), failing starts repeated 3 times in one server; oracle: the call returns, with the cause whose decisive instant comes first, at most NumTries datagrams, no pending transaction, no goroutine with a frame in the module besides the serve loop, and after Close a new query fails without writing")
+	w.SetRule("fault/timing grid on the virtual clock (resend delay 1 s): one Query with NumTries 1..3 x reply instant x ctx-cancel instant x Close instant (each in {never, right after the first send, d/2, k*d -/+ 1 ns}) x scripted socket write error on send i x a socket write stuck for half an interval (with reply / cancel / Close inside that window) x rate-limit options with a full or an empty limiter; every API call (Ping, FindNode, GetPeers, Get, Put) and traversal (Bootstrap, BootstrapContext, AnnounceTraversal with and without announce and with Close / StopTraversing, getput.Get mutable/immutable, getput.Put) under 9 start conditions (no starting nodes, nil resolver, resolver error, one silent node, one answering node, 3-node network with a silent member, two nodes one silent, a node holding the immutable / the mutable item next to a silent one) x stop instant (never, 0, 0.5 s, 2.5 s), failing starts repeated 3 times in one server; oracle: the call returns, with the cause whose decisive instant comes first, at most NumTries datagrams, no pending transaction, no goroutine with a frame in the module besides the serve loop, and after Close a new query fails without writing")
 	idx := 0
 	if c14SyncTier != nil {
 		c14SyncTier(t, w, &idx)
